@@ -185,6 +185,9 @@ class UnknownNode:
     def check_and_repair(self, monitor, verify, add_lease):
         return defer.succeed(None)
 
+    def __hash__(self):
+        return hash((self.__class__, self.ro_uri, self.rw_uri))
+
     def __eq__(self, other):
         if not isinstance(other, UnknownNode):
             return False
